@@ -245,6 +245,12 @@ func evkLeaf(c *engine.Chooser, name string, k cfg) {
 	// use applies the key to a fresh ciphertext of a uniform plaintext under the ideal input secret and
 	// returns the distance of the phase under the ideal output secret from the expected plaintext.
 	use := func(key *rlwe.EvaluationKey, lvl int) (noise *big.Int, err error) {
+		// a panic of the evaluator counts as a failure of the use (then compared with the single-party key)
+		defer func() {
+			if r := recover(); r != nil {
+				err = fmt.Errorf("panic: %v", r)
+			}
+		}()
 		ct, m := freshCiphertext(params, In.Ideal, lvl, name, "pt", lvl)
 		out := rlwe.NewCiphertext(params, 1, lvl)
 		if k.proto == "evk" {
